@@ -148,59 +148,48 @@ package dastard
 
 // ---- serialisation: the RPC handlers themselves never touch the running source ----
 // Each handler may call only read-only queries of the active source directly; every state-changing call has to
-// be inside the closure it queues (restriction-only contracts: no frame, no safety obligations).
+// be inside the closure it queues (restriction-only contracts: callee preconditions, safety and frame are not checked here).
 //@ func (*SourceControl).ConfigureTriggers
 //@   props C11
-//@   nosafety
-//@   opt noframe
+//@   opt restriction_only
 //@   opt queued_only DataSource
 //@ func (*SourceControl).ConfigureProjectorsBasis
 //@   props C11
-//@   nosafety
-//@   opt noframe
+//@   opt restriction_only
 //@   opt queued_only DataSource
 //@ func (*SourceControl).ConfigurePulseLengths
 //@   props C11
-//@   nosafety
-//@   opt noframe
+//@   opt restriction_only
 //@   opt queued_only DataSource WritingIsActive
 //@ func (*SourceControl).WriteControl
 //@   props C11
-//@   nosafety
-//@   opt noframe
+//@   opt restriction_only
 //@   opt queued_only DataSource
 //@ func (*SourceControl).SetExperimentStateLabel
 //@   props C11
-//@   nosafety
-//@   opt noframe
+//@   opt restriction_only
 //@   opt queued_only DataSource
 //@ func (*SourceControl).WriteComment
 //@   props C11
-//@   nosafety
-//@   opt noframe
+//@   opt restriction_only
 //@   opt queued_only DataSource
 //@ func (*SourceControl).CoupleErrToFB
 //@   props C11
-//@   nosafety
-//@   opt noframe
+//@   opt restriction_only
 //@   opt queued_only DataSource
 //@ func (*SourceControl).CoupleFBToErr
 //@   props C11
-//@   nosafety
-//@   opt noframe
+//@   opt restriction_only
 //@   opt queued_only DataSource
 //@ func (*SourceControl).changeGroupTriggerCoupling
 //@   props C11
-//@   nosafety
-//@   opt noframe
+//@   opt restriction_only
 //@   opt queued_only DataSource
 //@ func (*SourceControl).StopTriggerCoupling
 //@   props C11
-//@   nosafety
-//@   opt noframe
+//@   opt restriction_only
 //@   opt queued_only DataSource
 //@ func (*SourceControl).StoreRawDataBlock
 //@   props C11
-//@   nosafety
-//@   opt noframe
+//@   opt restriction_only
 //@   opt queued_only DataSource
